@@ -110,7 +110,12 @@ enum Text {
 
 impl std::fmt::Display for Token {
     fn fmt(&self, fmt: &mut std::fmt::Formatter<'_>) -> std::fmt::Result {
-        write!(fmt, "{self:?}")
+        match self {
+            // `\xx` escapes can make the content of a text token arbitrary bytes (blobs need
+            // that); it must not be formatted as a `str`.
+            Token::Text(s) => write!(fmt, "Text({:?})", String::from_utf8_lossy(s.as_bytes())),
+            _ => write!(fmt, "{self:?}"),
+        }
     }
 }
 
